@@ -174,7 +174,7 @@ def make_minor_pair(ka: int, kb: int, wide_a: bool, wide_b: bool, ra: int = 0, r
 MAJORS = [0, 1, 2, 255]
 
 
-def make_minor_group(kinds: typing.List[int], names: typing.List[int]):
+def make_minor_group(kinds: typing.List[int], names: typing.List[int], majors: typing.Optional[typing.List[int]] = None):
     """
     _ensure_minor_version_compatibility over 2-3 definitions: grouping by (name, major) - majors from a choice domain
     (the code keys a dict by them, which realises a symbolic value), minors / port-IDs / extents symbolic.
@@ -189,9 +189,12 @@ def make_minor_group(kinds: typing.List[int], names: typing.List[int]):
         mjs, mns, hs, ps, es = [mj0, mj1, mj2], [n0, n1, n2], [h0, h1, h2], [p0, p1, p2], [e0, e1, e2]
         ds = []
         for i in range(n):
-            mi = pick(mjs[i], 0, len(MAJORS) - 1)
-            if mi is None:
-                return None
+            if majors is not None:
+                mi = majors[i]  # scaffold: index into MAJORS
+            else:
+                mi = pick(mjs[i], 0, len(MAJORS) - 1)
+                if mi is None:
+                    return None
             if not es[i] >= 1:
                 return None
             d = {"kind": kinds[i], "name": "ns.N%d" % names[i], "major": MAJORS[mi], "minor": mns[i],
@@ -255,12 +258,20 @@ def conditions(tier: str, seed: int) -> typing.List[Cond]:
     if thorough:
         groups += [([0, 0, 0], [0, 0, 0]), ([1, 1, 0], [0, 0, 1]), ([2, 2, 2], [0, 0, 0]), ([1, 1, 1], [0, 0, 0]), ([0, 1, 2], [0, 0, 0]), ([3, 4], [0, 0]),
                    ([2, 2, 0], [0, 1, 1])]
+    trios = [([0, 0, 0], [0, 0, 0], [1, 1, 1]), ([1, 1, 1], [0, 0, 0], [1, 1, 1]), ([2, 2, 2], [0, 0, 0], [2, 2, 2]),
+             ([0, 0, 0], [0, 0, 0], [0, 0, 0]), ([0, 0, 0], [0, 0, 0], [1, 1, 2])]
     sig = {}  # type: typing.Dict[str, type]
     for nm, t in (("mj", int), ("n", int), ("h", bool), ("p", int), ("e", int)):
         for i in range(3):
             sig["%s%d" % (nm, i)] = t
     wit = {k: (1 if t is int else False) for k, t in sig.items()}
-    wit.update({"n0": 0, "n1": 1, "n2": 2, "e0": 4, "e1": 4, "e2": 4})
+    wit.update({"n0": 1, "n1": 2, "n2": 3, "e0": 4, "e1": 4, "e2": 4})
+    for ks, ns, mj in trios:
+        if ks == [1, 1, 1] and not thorough:
+            continue
+        out.append(Cond(PROP, "c11.minor-trio", make_minor_group, {"kinds": ks, "names": ns, "majors": mj}, sig,
+                        assumptions=A + ["three definitions of one name; majors fixed by the scaffold to %r" % [MAJORS[i] for i in mj]],
+                        fmtstub=True, budget=600.0, witness=wit))
     for ks, ns in groups:
         out.append(Cond(PROP, "c11.minor-group", make_minor_group, {"kinds": ks, "names": ns}, sig,
                         assumptions=A + ["majors from {0, 1, 2, 255} (choice)"], fmtstub=True,
